@@ -142,7 +142,7 @@ Step(o) ==
   LET ok == ImplOk(o)
       ev == [op |-> o, res |-> IF ok THEN "ok" ELSE "fail", obs |-> ObsOf(sadmin', sbal', sauthz', mgrs')]
   IN /\ IF ok THEN ImplEffect(o) ELSE UNCHANGED impl
-     /\ g' = GNext(g, ev)
+     /\ g' = GStep(g, ev)
      /\ viol' = viol \cup {<<m, Key(m, g, ev)>> : m \in Failing(g, ev)}
      /\ hist' = Append(hist, o @@ [exp |-> ev.res])
 Next == Len(hist) < Depth /\ \E o \in Ops : Step(o)
